@@ -1083,9 +1083,11 @@ def run(run):
     cx = Ctx(run)
     res_u, res, res_r, res_e = M.tlc_parallel([
         ("ValLaws", "ValLaws_c06_quick" if quick else "ValLaws_c06_thorough", dict(coverage=False, timeout=3000)),
-        ("ValCont", "ValCont_quick" if quick else "ValCont_thorough", dict(coverage=False, timeout=3000)),
-        ("ValCont", "ValCont_rich", dict(coverage=False, timeout=3000)),
-        ("ValEdit", "ValEdit_quick" if quick else "ValEdit_thorough", dict(coverage=False, timeout=3000))])
+        ("ValCont", "ValCont_quick" if quick else "ValCont_thorough",
+         dict(coverage=False, timeout=3000, workers=8, heap="4g")),
+        ("ValCont", "ValCont_rich", dict(coverage=False, timeout=3000, workers=2, heap="2g")),
+        ("ValEdit", "ValEdit_quick" if quick else "ValEdit_thorough",
+         dict(coverage=False, timeout=3000, workers=4, heap="3g"))])
     # how often each action was taken, counted from the transitions the specs export (TLC's -coverage
     # instruments every operator of Val.tla, which costs more than the runs themselves)
     for r in (res, res_r):
